@@ -1183,6 +1183,9 @@ func (fx *FnExec) callMods(ci ssa.CallInstruction, ms *modSet) {
 			}
 			return
 		}
+		if n, ok := cc.Value.Type().(*types.Named); ok && fx.e.isPurePkg(n.Obj().Pkg()) {
+			return // interface of a pure package: no effect
+		}
 		if observerCallee("dynamic " + ifaceKey(cc)) {
 			// same treatment as in the loop body (opaqueCall): caches, and IDs if a target can write them
 			if ts := fx.e.dynamicTargets(cc); len(ts) > 0 && !fx.e.reachesIDWrites(ts) {
@@ -1228,6 +1231,9 @@ func (fx *FnExec) wouldBeOpaque(fn *ssa.Function) bool {
 	if con := fx.e.cons[fn]; con != nil {
 		return false
 	}
+	if fx.pureFuncOf(fn) {
+		return false
+	}
 	switch fn.String() {
 	case "github.com/pkg/errors.Errorf", "github.com/pkg/errors.New", "errors.New", "fmt.Errorf", "github.com/pkg/errors.WithStack", "github.com/pkg/errors.Wrapf", "github.com/pkg/errors.Wrap", "fmt.Sprintf", "fmt.Sprint", "fmt.Sprintln":
 		return false
@@ -1251,6 +1257,16 @@ func (fx *FnExec) wouldBeOpaque(fn *ssa.Function) bool {
 }
 
 func (fx *FnExec) funcMods(fn *ssa.Function, ms *modSet, depth int) {
+	if fx.pureFuncOf(fn) {
+		// no effect on the heap; a slice result is a fresh allocation
+		for i := 0; i < fn.Signature.Results().Len(); i++ {
+			if sl, ok := fn.Signature.Results().At(i).Type().Underlying().(*types.Slice); ok {
+				n, s := fx.elemHeapName(sl.Elem())
+				ms.heaps[n] = s
+			}
+		}
+		return
+	}
 	if fx.wouldBeOpaque(fn) {
 		if observerCallee(fn.String()) && (fx.inRepo(fn) || fn.Synthetic != "") {
 			if fx.e.reachesIDWrites([]*ssa.Function{fn}) {
